@@ -831,6 +831,10 @@ class Interp:
                                         types.ClassMethodDescriptorType,
                                         types.BuiltinFunctionType)):
                         return wrap(getattr(py, name))
+                    if hasattr(type(raw), "__get__") and not isinstance(raw, type):
+                        # another descriptor kind (e.g. pydantic's class properties): the class
+                        # attribute is what Python's own lookup returns
+                        return wrap(getattr(py, name))
                     return wrap(raw)
             try:
                 return wrap(getattr(py, name))
